@@ -224,7 +224,7 @@ fn families(quick: bool) -> Vec<LmFamily> {
         m: 2,
         doms: if quick { vec![Dom::NonNeg, Dom::Free] } else { vec![Dom::NonNeg, Dom::Free, Dom::NonNegB(0.0, 4.0)] },
         coefs: if quick { vec![-1.0, 1.0, 2.0] } else { vec![-1.0, 0.0, 1.0, 2.0] },
-        rhss: if quick { vec![-1.0, 3.0] } else { vec![-1.0, 1.0, 3.0] },
+        rhss: if quick { vec![-1.0, 0.0, 3.0] } else { vec![-1.0, 0.0, 1.0, 3.0] },
         rels: vec![Rel::Le, Rel::Ge, Rel::Eq],
         objs: if quick { vec![-1.0, 2.0] } else { vec![-1.0, 1.0, 2.0] },
         senses: vec![Sense::Min, Sense::Max],
